@@ -105,6 +105,8 @@ func (u *Universe) IP(name string) netip.Addr {
 				return addN(u.Cfg.LanBase, k)
 			case 'x':
 				return addN(u.Cfg.ExtBase, k)
+			case 'u': // unique local address (fd00::/8): global unicast for tracking purposes
+				return netip.AddrFrom16([16]byte{0xfd, 0x00, 0, 0, 0, 0, 0, 0, 0, 0, 0, 0, 0, 0, 0x03, byte(k)})
 			case 'q': // IPv4-mapped IPv6 form of a<K>
 				return netip.AddrFrom16(addN(u.Cfg.LanBase, k).As16())
 			case 'l':
@@ -152,6 +154,9 @@ func (u *Universe) IPName(ip netip.Addr) string {
 		}
 		if b[0] == 0x20 && b[1] == 0x01 && b[14] == 2 {
 			return "g" + strconv.Itoa(int(b[15]))
+		}
+		if b[0] == 0xfd && b[1] == 0x00 && b[14] == 3 {
+			return "u" + strconv.Itoa(int(b[15]))
 		}
 	}
 	return "ip:" + ip.String()
